@@ -169,10 +169,13 @@ def run_case(case: dict) -> dict:
                 t0 = time.time()
                 while master.state_update._waiters and th.is_alive() and time.time() - t0 < 0.05:
                     time.sleep(0.0005)
+            t_fed = time.time()
             th.join(10)
+            # "slow": a heartbeat wait that had its message went on sleeping for more than half its time-out
+            slow = op["kind"] == "hb" and bool(fed) and op["timeout"] >= 5 and time.time() - t_fed > 0.5 * op["timeout"]
             # "early": the wait failed well before its time-out (on the clock the library sees) had run out
             early = res.get("r") == "NmtError" and (vclock.time() - t_begin) < 0.8 * op["timeout"]
-            log({"e": "wait", "kind": op["kind"], "fed": fed, "late": late, "inj": inj, "early": bool(early),
+            log({"e": "wait", "kind": op["kind"], "fed": fed, "late": late, "inj": inj, "early": bool(early), "slow": bool(slow),
                  "result": res.get("r", "hang")})
     for i, e in enumerate(ev):
         e["n"] = i + 1
